@@ -68,6 +68,12 @@ def jobs(tier, seed):
     for fmt in ("rpms", "modules", "extra_files"):
         add(fmt, "compose", C06.COMPOSE_FIELDS)
     add("discinfo", "top", C06.DISCINFO_FIELDS)
+    add("treeinfo", "release", C06.TREE_RELEASE_FIELDS)
+    add("treeinfo", "base_product", C06.TREE_BP_FIELDS)
+    add("treeinfo", "tree", C06.TREE_FIELDS)
+    add("treeinfo", "media", C06.TREE_MEDIA_FIELDS)
+    for uid in ("Server", "Server-HA"):
+        add("treeinfo", "v:" + uid, C06.TREE_VARIANT_FIELDS)
     return out
 
 
@@ -78,6 +84,6 @@ META = {
         "fault positions: every documented field of every nested object of the base objects of C06 (compose, release, base product, variants at depth 1-2, "
         "layered-product release, images in two cells, discinfo), invalidated by a symbolic value of any kind outside its domain - "
         "i.e. each nested validator is made to fail, whether the top-level check or only a nested writer detects it",
-        "treeinfo (its own dump method) is covered once the INI layer is enabled",
+        "treeinfo (its own dump method): release, base product, tree, media and variant fields of the C06 base tree",
     ],
 }
